@@ -10,6 +10,9 @@ Local Open Scope Z_scope.
 Lemma concat_map_single {A B} (f : A -> B) (l : list A) : concat (map (fun x => [f x]) l) = map f l.
 Proof. induction l as [|x l IH]; simpl; [reflexivity|now rewrite IH]. Qed.
 
+Lemma sumZf_nonneg_l {A} (f : A -> Z) l : (forall x, In x l -> 0 <= f x) -> 0 <= sumZf f l.
+Proof. induction l as [|x l IH]; simpl; intros H; [lia|]. specialize (H x (or_introl eq_refl)) as Hx. assert (0 <= sumZf f l) by (apply IH; intros; apply H; now right). lia. Qed.
+
 Section WalkPerm.
   Context {A X : Type}.
   Variable sz : sizer.
@@ -57,25 +60,663 @@ Section WalkPerm.
   Qed.
 End WalkPerm.
 
+Lemma walk_leaf_incl {A} sz (cs : A -> Z) keep : forall l cap rm d k rm',
+  walk sz cs None keep l cap rm = (d, k, rm') -> incl d l.
+Proof.
+  induction l as [|c l IH]; intros cap rm d k rm' E; simpl in E.
+  - inversion E; subst. intros x [].
+  - destruct (cap =? 0).
+    + destruct (walk sz cs None keep l cap rm) as [[d1 k1] rm1] eqn:E1. inversion E; subst. intros x Hx. right. eapply IH; eauto.
+    + destruct (delta sz (cs c) >? cap).
+      * destruct (walk sz cs None keep l 0 rm) as [[d1 k1] rm1] eqn:E1. inversion E; subst. intros x Hx. right. eapply IH; eauto.
+      * destruct (walk sz cs None keep l _ _) as [[d1 k1] rm1] eqn:E1. inversion E; subst.
+        intros x [->|Hx]; [now left|right; eapply IH; eauto].
+Qed.
+
+(* ---- DeltaSize grows at least like the identity --------------------------------------------- *)
+Lemma lor1 x : 0 <= x -> Z.lor x 1 = 2 * (x / 2) + 1.
+Proof.
+  intros Hx. apply Z.bits_inj'. intros n Hn. rewrite Z.lor_spec.
+  destruct (Z.eq_dec n 0) as [->|Hne].
+  - rewrite Z.testbit_odd_0. change (Z.testbit 1 0) with true. apply orb_true_r.
+  - assert (Hn1 : n = Z.succ (n - 1)) by lia. rewrite Hn1.
+    rewrite Z.testbit_odd_succ by lia.
+    assert (H1 : Z.testbit 1 (Z.succ (n - 1)) = false).
+    { apply Z.bits_above_log2. - lia. - change (Z.log2 1) with 0. lia. }
+    rewrite H1, orb_false_r. rewrite <- Z.div2_div, Z.div2_spec, Z.shiftr_spec by lia. f_equal; lia.
+Qed.
+
+Lemma sov_mono x y : 0 <= x -> x <= y -> sov x <= sov y.
+Proof.
+  intros Hx Hxy. unfold sov.
+  assert (Ex : (x <? 0) = false) by (apply Z.ltb_ge; lia). assert (Ey : (y <? 0) = false) by (apply Z.ltb_ge; lia).
+  rewrite Ex, Ey. apply Z.div_le_mono; [lia|]. apply Z.add_le_mono_r. apply Z.log2_le_mono.
+  rewrite !lor1 by lia. assert (x / 2 <= y / 2) by (apply Z.div_le_mono; lia). lia.
+Qed.
+
+Lemma sov_pos0 x : 1 <= sov x.
+Proof.
+  unfold sov. destruct (x <? 0) eqn:E; [lia|]. apply Z.ltb_ge in E.
+  assert (0 <= Z.log2 (Z.lor x 1)) by apply Z.log2_nonneg.
+  apply Z.div_le_lower_bound; lia.
+Qed.
+
+Lemma delta_mono sz x y : 0 <= x -> x <= y -> y - x <= delta sz y - delta sz x.
+Proof. intros Hx Hxy. destruct sz; cbn [delta]; [lia|]. pose proof (sov_mono x y Hx Hxy). lia. Qed.
+
+Lemma delta_ge sz x : 0 <= x -> x <= delta sz x.
+Proof. intros Hx. destruct sz; cbn [delta]; [lia|]. pose proof (sov_pos0 x). lia. Qed.
+
+(* what an extraction reports as removed is at least the number of items it moved out (and at most the size
+   of what it walked over) *)
+Section WalkBounds.
+  Context {A : Type}.
+  Variable sz : sizer.
+  Variable csize : A -> Z.
+  Variable part : option (A -> Z -> A * A * Z).
+  Variable keep_ext : A -> bool.
+  Variable N : A -> Z.                (* number of items inside a child *)
+  Variable Q : A -> Prop.             (* well-formedness: non-negative measured sizes *)
+  Hypothesis Q_ok : forall c, Q c -> 0 <= csize c /\ 0 <= N c /\ N c <= delta sz (csize c).
+  Hypothesis part_ok : forall ex, part = Some ex -> forall c cap e rest er,
+    Q c -> ex c cap = (e, rest, er) -> 0 <= N e /\ N e <= er /\ er <= csize c.
+
+  Lemma walk_bounds : forall l cap rm d k rm',
+    Forall Q l -> walk sz csize part keep_ext l cap rm = (d, k, rm') ->
+    rm + sumZf N d <= rm' /\ rm' <= rm + sumZf (fun c => delta sz (csize c)) l.
+  Proof.
+    induction l as [|c l IH]; intros cap rm d k rm' HQ Hw; cbn [walk] in Hw.
+    - inversion Hw; subst. cbn [sumZf]. lia.
+    - inversion HQ as [|? ? Qc Ql]; subst. destruct (Q_ok c Qc) as [Hc0 [HN0 HN]].
+      pose proof (delta_ge sz (csize c) Hc0) as Hdg. cbn [sumZf].
+      destruct (cap =? 0).
+      + destruct (walk sz csize part keep_ext l cap rm) as [[d0 k0] rm0] eqn:E.
+        inversion Hw; subst. destruct (IH _ _ _ _ _ Ql E). lia.
+      + destruct (delta sz (csize c) >? cap).
+        * destruct part as [ex|] eqn:Epart.
+          -- destruct (ex c cap) as [[e rest] er] eqn:Eex.
+             destruct (part_ok ex eq_refl c cap e rest er Qc Eex) as [He0 [He Her]].
+             assert (Hm : er <= delta sz (csize c) - delta sz (csize c - er)) by (pose proof (delta_mono sz (csize c - er) (csize c)); lia).
+             assert (Hg : 0 <= delta sz (csize c - er)) by (pose proof (delta_ge sz (csize c - er)); lia).
+             destruct (walk sz csize (Some ex) keep_ext l 0 _) as [[d0 k0] rm0] eqn:E.
+             inversion Hw; subst. destruct (IH _ _ _ _ _ Ql E) as [L U].
+             assert (Hd : sumZf N ((if keep_ext e then [e] else []) ++ d0) <= N e + sumZf N d0).
+             { destruct (keep_ext e); cbn [app sumZf]; lia. }
+             lia.
+          -- destruct (walk sz csize None keep_ext l 0 rm) as [[d0 k0] rm0] eqn:E.
+             inversion Hw; subst. destruct (IH _ _ _ _ _ Ql E). lia.
+        * destruct (walk sz csize part keep_ext l (cap - delta sz (csize c)) _) as [[d0 k0] rm0] eqn:E.
+          inversion Hw; subst. destruct (IH _ _ _ _ _ Ql E). cbn [sumZf]. lia.
+  Qed.
+End WalkBounds.
+
 (* ---------------------------------------------------------------------------------------- *)
 (* logs / traces / profiles                                                                  *)
 (* ---------------------------------------------------------------------------------------- *)
-Definition flat_scope (rc : Z) (s : scope) : list (Z * Z * Z) := map (fun i => (iid i, rc, sctx s)) (sitems s).
+(* the observable with the WHOLE item (id, sizes, weight) — [flat] is its projection *)
+Definition iflat_scope (rc : Z) (s : scope) : list (item * Z * Z) := map (fun i => (i, rc, sctx s)) (sitems s).
+Definition iflat_res (r : res) : list (item * Z * Z) := concat (map (iflat_scope (rctx r)) (rscopes r)).
+Definition iflat (p : payload) : list (item * Z * Z) := concat (map iflat_res p).
+Definition pr3 (x : item * Z * Z) : Z * Z * Z := let '(i, rc, sc) := x in (iid i, rc, sc).
 
-Lemma flat_res_eq r : flat_res r = concat (map (flat_scope (rctx r)) (rscopes r)).
-Proof. reflexivity. Qed.
+Lemma map_concat {A B} (f : A -> B) (l : list (list A)) : map f (concat l) = concat (map (map f) l).
+Proof. induction l as [|x l IH]; simpl; [reflexivity|now rewrite map_app, IH]. Qed.
 
-Lemma extract_scope_ok sz s cap e rest er rc :
-  extract_scope sz s cap = (e, rest, er) ->
-  Permutation (flat_scope rc e ++ flat_scope rc rest) (flat_scope rc s) /\ True /\
-  (scope_nonempty e = false -> flat_scope rc e = []).
+Lemma flat_iflat p : flat p = map pr3 (iflat p).
 Proof.
-  unfold extract_scope. intros H.
-  destruct (walk sz (item_size sz) None (fun _ => true) (sitems s) _ 0) as [[d k] rm] eqn:E.
+  unfold flat, iflat. rewrite map_concat, map_map. f_equal. apply map_ext. intros r.
+  unfold flat_res, iflat_res. rewrite map_concat, map_map. f_equal. apply map_ext. intros s.
+  unfold iflat_scope. rewrite map_map. reflexivity.
+Qed.
+
+Lemma items_iflat p : items_of p = map (fun x => fst (fst x)) (iflat p).
+Proof.
+  unfold items_of, iflat. rewrite map_concat, map_map. f_equal. apply map_ext. intros r.
+  unfold items_of_res, iflat_res. rewrite map_concat, map_map. f_equal. apply map_ext. intros s.
+  unfold iflat_scope. rewrite map_map. cbn [fst]. now rewrite map_id.
+Qed.
+
+(* well-formed payloads: the measured sizes are non-negative and every item present has a positive delta size
+   (items sizer: it weighs at least 1; bytes sizer: its encoded size is non-negative) *)
+Definition wf_i (w : item -> Z) (sz : sizer) (i : item) : Prop :=
+  0 <= item_size w sz i /\ 1 <= delta sz (item_size w sz i).
+Definition wf_s (w : item -> Z) (sz : sizer) (s : scope) : Prop :=
+  0 <= hdr sz (shdr s) /\ Forall (wf_i w sz) (sitems s).
+Definition wf_r (w : item -> Z) (sz : sizer) (r : res) : Prop :=
+  0 <= hdr sz (rhdr r) /\ Forall (wf_s w sz) (rscopes r).
+Definition wf_p (w : item -> Z) (sz : sizer) (p : payload) : Prop := Forall (wf_r w sz) p.
+
+Definition N_s (s : scope) : Z := Z.of_nat (length (sitems s)).
+Definition N_r (r : res) : Z := Z.of_nat (length (items_of_res r)).
+
+Lemma sumZf_le {A} (f g : A -> Z) l : (forall x, In x l -> f x <= g x) -> sumZf f l <= sumZf g l.
+Proof. induction l as [|x l IH]; simpl; intros H; [lia|]. specialize (H x (or_introl eq_refl)) as Hx. assert (sumZf f l <= sumZf g l) by (apply IH; intros; apply H; now right). lia. Qed.
+
+Lemma sumZf_ones' {A} (l : list A) : sumZf (fun _ => 1) l = Z.of_nat (length l).
+Proof. induction l as [|x l IH]; [reflexivity|]. cbn [sumZf length]. rewrite IH. lia. Qed.
+
+Lemma wf_s_size w sz s : wf_s w sz s -> 0 <= scope_size w sz s /\ N_s s <= scope_size w sz s.
+Proof.
+  intros [Hh Hi]. unfold scope_size, N_s. rewrite <- sumZf_ones'.
+  assert (sumZf (fun _ : item => 1) (sitems s) <= sumZf (fun i => delta sz (item_size w sz i)) (sitems s)).
+  { apply sumZf_le. intros x Hx. exact (proj2 (proj1 (Forall_forall _ _) Hi x Hx)). }
+  assert (0 <= sumZf (fun _ : item => 1) (sitems s)) by (apply sumZf_nonneg_l; intros; lia). lia.
+Qed.
+
+Lemma wf_r_size w sz r : wf_r w sz r -> 0 <= res_size w sz r /\ N_r r <= res_size w sz r.
+Proof.
+  intros [Hh Hs]. unfold res_size, N_r, items_of_res.
+  assert (H : 0 <= sumZf (fun s => delta sz (scope_size w sz s)) (rscopes r) /\
+              Z.of_nat (length (concat (map sitems (rscopes r)))) <= sumZf (fun s => delta sz (scope_size w sz s)) (rscopes r)).
+  { induction Hs as [|s l Hs0 Hl IH]; [cbn; lia|]. cbn [map concat sumZf]. rewrite app_length, Nat2Z.inj_add.
+    destruct (wf_s_size _ _ _ Hs0) as [A B]. pose proof (delta_ge sz _ A). unfold N_s in B. lia. }
+  lia.
+Qed.
+
+Lemma extract_scope_ok w sz s cap e rest er rc :
+  wf_s w sz s -> extract_scope w sz s cap = (e, rest, er) ->
+  Permutation (iflat_scope rc e ++ iflat_scope rc rest) (iflat_scope rc s) /\ wf_s w sz rest /\
+  (scope_nonempty e = false -> iflat_scope rc e = []).
+Proof.
+  unfold extract_scope. intros [Hh Hi] H.
+  destruct (walk sz (item_size w sz) None (fun _ => true) (sitems s) _ 0) as [[d k] rm] eqn:E.
   inversion H; subst; clear H.
-  destruct (walk_perm sz (item_size sz) None (fun _ => true) (fun i => [(iid i, rc, sctx s)]) (fun _ => True)
-              (fun ex Hex => ltac:(discriminate Hex)) _ _ _ _ _ _ (proj2 (Forall_forall _ _) (fun _ _ => I)) E) as [Hp _].
+  destruct (walk_perm sz (item_size w sz) None (fun _ => true) (fun i => [(i, rc, sctx s)]) (wf_i w sz)
+              (fun ex Hex => ltac:(discriminate Hex)) _ _ _ _ _ _ Hi E) as [Hp Hk].
   rewrite !concat_map_single in Hp.
-  unfold flat_scope; simpl. split; [exact Hp|]. split; [exact I|].
+  unfold iflat_scope; simpl. split; [exact Hp|]. split; [split; assumption|].
   unfold scope_nonempty; simpl. destruct d; simpl; [reflexivity|discriminate].
+Qed.
+
+Lemma item_Q_ok w sz (c : item) : wf_i w sz c -> 0 <= item_size w sz c /\ 0 <= 1 /\ 1 <= delta sz (item_size w sz c).
+Proof. intros [A B]. lia. Qed.
+
+Lemma extract_scope_bounds w sz s cap e rest er :
+  wf_s w sz s -> extract_scope w sz s cap = (e, rest, er) -> 0 <= N_s e /\ N_s e <= er /\ er <= scope_size w sz s.
+Proof.
+  unfold extract_scope. intros [Hh Hi] H.
+  destruct (walk sz (item_size w sz) None (fun _ => true) (sitems s) _ 0) as [[d k] rm] eqn:E.
+  inversion H; subst; clear H.
+  destruct (walk_bounds sz (item_size w sz) None (fun _ => true) (fun _ => 1) (wf_i w sz)
+              (item_Q_ok w sz) (fun ex Hex => ltac:(discriminate Hex)) _ _ _ _ _ _ Hi E) as [L U].
+  unfold N_s, scope_size; cbn [sitems]. rewrite sumZf_ones' in L. lia.
+Qed.
+
+Lemma extract_res_ok w sz r cap e rest er :
+  wf_r w sz r -> extract_res w sz r cap = (e, rest, er) ->
+  Permutation (iflat_res e ++ iflat_res rest) (iflat_res r) /\ wf_r w sz rest /\ (res_nonempty e = false -> iflat_res e = []).
+Proof.
+  unfold extract_res. intros [Hh Hs] H.
+  destruct (walk sz (scope_size w sz) (Some (extract_scope w sz)) scope_nonempty (rscopes r) _ 0) as [[d k] rm] eqn:E.
+  inversion H; subst; clear H.
+  assert (Hpart : forall ex, Some (extract_scope w sz) = Some ex -> forall c cap0 e0 rest0 er0,
+            wf_s w sz c -> ex c cap0 = (e0, rest0, er0) ->
+            Permutation (iflat_scope (rctx r) e0 ++ iflat_scope (rctx r) rest0) (iflat_scope (rctx r) c) /\ wf_s w sz rest0 /\
+            (scope_nonempty e0 = false -> iflat_scope (rctx r) e0 = [])).
+  { intros ex Hex; inversion Hex; subst. intros c cap0 e0 rest0 er0 Hc Hx. exact (extract_scope_ok w sz c cap0 e0 rest0 er0 (rctx r) Hc Hx). }
+  destruct (walk_perm sz (scope_size w sz) (Some (extract_scope w sz)) scope_nonempty (iflat_scope (rctx r)) (wf_s w sz)
+              Hpart _ _ _ _ _ _ Hs E) as [Hp Hk].
+  unfold iflat_res; simpl. split; [exact Hp|]. split; [split; assumption|].
+  unfold res_nonempty; simpl. destruct d; simpl; [reflexivity|discriminate].
+Qed.
+
+Lemma N_s_sum l : sumZf N_s l = Z.of_nat (length (concat (map sitems l))).
+Proof. induction l as [|s l IH]; [reflexivity|]. cbn [sumZf map concat]. rewrite app_length, Nat2Z.inj_add, IH. reflexivity. Qed.
+
+Lemma N_r_sum p : sumZf N_r p = Z.of_nat (length (items_of p)).
+Proof. unfold items_of. induction p as [|r p IH]; [reflexivity|]. cbn [sumZf map concat]. rewrite app_length, Nat2Z.inj_add, IH. reflexivity. Qed.
+
+Lemma scope_Q_ok w sz c : wf_s w sz c -> 0 <= scope_size w sz c /\ 0 <= N_s c /\ N_s c <= delta sz (scope_size w sz c).
+Proof. intros H. destruct (wf_s_size _ _ _ H) as [A B]. pose proof (delta_ge sz _ A). unfold N_s in *. lia. Qed.
+
+Lemma res_Q_ok w sz c : wf_r w sz c -> 0 <= res_size w sz c /\ 0 <= N_r c /\ N_r c <= delta sz (res_size w sz c).
+Proof. intros H. destruct (wf_r_size _ _ _ H) as [A B]. pose proof (delta_ge sz _ A). unfold N_r in *. lia. Qed.
+
+Lemma extract_res_bounds w sz r cap e rest er :
+  wf_r w sz r -> extract_res w sz r cap = (e, rest, er) -> 0 <= N_r e /\ N_r e <= er /\ er <= res_size w sz r.
+Proof.
+  unfold extract_res. intros [Hh Hs] H.
+  destruct (walk sz (scope_size w sz) (Some (extract_scope w sz)) scope_nonempty (rscopes r) _ 0) as [[d k] rm] eqn:E.
+  inversion H; subst; clear H.
+  assert (Hpart : forall ex, Some (extract_scope w sz) = Some ex -> forall c cap0 e0 rest0 er0,
+            wf_s w sz c -> ex c cap0 = (e0, rest0, er0) -> 0 <= N_s e0 /\ N_s e0 <= er0 /\ er0 <= scope_size w sz c).
+  { intros ex Hex; inversion Hex; subst. intros c cap0 e0 rest0 er0 Hc Hx. exact (extract_scope_bounds w sz c cap0 e0 rest0 er0 Hc Hx). }
+  destruct (walk_bounds sz (scope_size w sz) (Some (extract_scope w sz)) scope_nonempty N_s (wf_s w sz)
+              (scope_Q_ok w sz) Hpart _ _ _ _ _ _ Hs E) as [L U].
+  unfold N_r, items_of_res, res_size; cbn [rscopes]. rewrite N_s_sum in L. lia.
+Qed.
+
+Lemma extract_payload_perm w sz p cap d k rm :
+  wf_p w sz p -> extract_payload w sz p cap = (d, k, rm) ->
+  Permutation (iflat d ++ iflat k) (iflat p) /\ wf_p w sz k.
+Proof.
+  unfold extract_payload. intros Hwf E.
+  assert (Hpart : forall ex, Some (extract_res w sz) = Some ex -> forall c cap0 e0 rest0 er0,
+            wf_r w sz c -> ex c cap0 = (e0, rest0, er0) ->
+            Permutation (iflat_res e0 ++ iflat_res rest0) (iflat_res c) /\ wf_r w sz rest0 /\ (res_nonempty e0 = false -> iflat_res e0 = [])).
+  { intros ex Hex; inversion Hex; subst. intros c cap0 e0 rest0 er0 Hc Hx. exact (extract_res_ok w sz c cap0 e0 rest0 er0 Hc Hx). }
+  exact (walk_perm sz (res_size w sz) (Some (extract_res w sz)) res_nonempty iflat_res (wf_r w sz) Hpart _ _ _ _ _ _ Hwf E).
+Qed.
+
+(* the removed size reported by an extraction is at least the number of items of the extracted payload *)
+Lemma extract_payload_removed w sz p cap d k rm :
+  wf_p w sz p -> extract_payload w sz p cap = (d, k, rm) -> Z.of_nat (length (items_of d)) <= rm.
+Proof.
+  unfold extract_payload. intros Hwf E.
+  assert (Hpart : forall ex, Some (extract_res w sz) = Some ex -> forall c cap0 e0 rest0 er0,
+            wf_r w sz c -> ex c cap0 = (e0, rest0, er0) -> 0 <= N_r e0 /\ N_r e0 <= er0 /\ er0 <= res_size w sz c).
+  { intros ex Hex; inversion Hex; subst. intros c cap0 e0 rest0 er0 Hc Hx. exact (extract_res_bounds w sz c cap0 e0 rest0 er0 Hc Hx). }
+  destruct (walk_bounds sz (res_size w sz) (Some (extract_res w sz)) res_nonempty N_r (wf_r w sz)
+              (res_Q_ok w sz) Hpart _ _ _ _ _ _ Hwf E) as [L _].
+  rewrite N_r_sum in L. lia.
+Qed.
+
+Definition iflat_reqs (l : list req) : list (item * Z * Z) := concat (map (fun r => iflat (rp r)) l).
+Definition flat_reqs (l : list req) : list (Z * Z * Z) := concat (map (fun r => flat (rp r)) l).
+
+Lemma flat_reqs_iflat l : flat_reqs l = map pr3 (iflat_reqs l).
+Proof.
+  unfold flat_reqs, iflat_reqs. rewrite map_concat, map_map. f_equal. apply map_ext. intros r. apply flat_iflat.
+Qed.
+
+Lemma iflat_reqs_app l1 l2 : iflat_reqs (l1 ++ l2) = iflat_reqs l1 ++ iflat_reqs l2.
+Proof. unfold iflat_reqs. now rewrite map_app, concat_app. Qed.
+
+Lemma flat_app p q : flat (p ++ q) = flat p ++ flat q.
+Proof. unfold flat. now rewrite map_app, concat_app. Qed.
+
+Lemma split_loop_perm : forall fuel w sz max p cached acc out,
+  wf_p w sz p ->
+  split_loop fuel w sz max p cached acc = Some out ->
+  Permutation (iflat_reqs out) (iflat_reqs acc ++ iflat p).
+Proof.
+  induction fuel as [|f IH]; intros w sz max p cached acc out Hw H; simpl in H.
+  - destruct (cached >? max); [discriminate|]. inversion H; subst.
+    rewrite iflat_reqs_app. unfold iflat_reqs at 2; simpl. now rewrite app_nil_r.
+  - destruct (cached >? max).
+    + destruct (extract_payload w sz p max) as [[d k] rm] eqn:E.
+      destruct (extract_payload_perm _ _ _ _ _ _ _ Hw E) as [Hp Hwk].
+      pose proof (extract_payload_removed _ _ _ _ _ _ _ Hw E) as Hrm.
+      destruct (rm <=? 0) eqn:Eb.
+      * (* break: nothing was removed, so the discarded payload holds no item *)
+        apply Z.leb_le in Eb.
+        assert (Hd : iflat d = []).
+        { assert (Hi : items_of d = []) by (destruct (items_of d); [reflexivity|cbn [length] in Hrm; lia]).
+          rewrite items_iflat in Hi. destruct (iflat d); [reflexivity|discriminate]. }
+        inversion H; subst. rewrite iflat_reqs_app. unfold iflat_reqs at 2; simpl. rewrite app_nil_r.
+        apply Permutation_app_head. rewrite <- Hp, Hd. reflexivity.
+      * apply IH in H; [|exact Hwk]. rewrite H, iflat_reqs_app. unfold iflat_reqs at 2; simpl. rewrite app_nil_r, <- app_assoc.
+        apply Permutation_app_head. exact Hp.
+    + inversion H; subst. rewrite iflat_reqs_app. unfold iflat_reqs at 2; simpl. now rewrite app_nil_r.
+Qed.
+
+Definition flat_opt (b : option req) : list (Z * Z * Z) := match b with Some r => flat (rp r) | None => [] end.
+Definition wf_opt (w : item -> Z) (sz : sizer) (b : option req) : Prop := match b with Some r => wf_p w sz (rp r) | None => True end.
+
+Lemma merge_split_conserves_l : forall w sz max a b out,
+  wf_p w sz (rp a) -> wf_opt w sz b ->
+  merge_split w sz max a b = Some out ->
+  Permutation (flat_reqs out) (flat (rp a) ++ flat_opt b).
+Proof.
+  intros w sz max a b out Ha Hb H. unfold merge_split in H.
+  assert (Hm : flat (rp (merged w sz a b)) = flat (rp a) ++ flat_opt b).
+  { destruct b; simpl; [apply flat_app|now rewrite app_nil_r]. }
+  assert (Hw : wf_p w sz (rp (merged w sz a b))).
+  { destruct b; simpl; [|exact Ha]. unfold wf_p. apply Forall_app. split; assumption. }
+  destruct (max =? 0).
+  - inversion H; subst. unfold flat_reqs; simpl. now rewrite app_nil_r, Hm.
+  - apply split_loop_perm in H; [|exact Hw]. simpl in H. rewrite flat_reqs_iflat, <- Hm, flat_iflat.
+    apply Permutation_map. exact H.
+Qed.
+
+(* logs and traces with the items sizer: every payload is well-formed, no hypothesis is left *)
+Lemma wf_p_unit_items p : wf_p w_unit Items p.
+Proof.
+  apply Forall_forall. intros r _. split; [cbn; lia|]. apply Forall_forall. intros s _. split; [cbn; lia|].
+  apply Forall_forall. intros i _. unfold wf_i, item_size, w_unit. cbn [delta]. lia.
+Qed.
+
+Lemma merge_split_conserves_unit_l : forall max a b out,
+  merge_split w_unit Items max a b = Some out ->
+  Permutation (flat_reqs out) (flat (rp a) ++ flat_opt b).
+Proof.
+  intros max a b out. apply merge_split_conserves_l; [apply wf_p_unit_items|destruct b; simpl; [apply wf_p_unit_items|exact I]].
+Qed.
+
+(* ---- termination, for every payload, both sizers, every max, every weight function -------------- *)
+(* each continuing iteration lowers the memo by at least 1 and the loop runs only while the memo exceeds max *)
+Lemma split_loop_total : forall fuel w sz max p cached acc,
+  (Z.to_nat (cached - max) < fuel)%nat -> exists out, split_loop fuel w sz max p cached acc = Some out.
+Proof.
+  induction fuel as [|f IH]; intros w sz max p cached acc Hf; [lia|]. cbn [split_loop].
+  destruct (cached >? max) eqn:Eg; [|eauto]. rewrite Z.gtb_ltb in Eg. apply Z.ltb_lt in Eg.
+  destruct (extract_payload w sz p max) as [[d k] rm].
+  destruct (rm <=? 0) eqn:Eb; [eauto|]. apply Z.leb_gt in Eb.
+  apply IH. lia.
+Qed.
+
+Lemma merge_split_total w sz max a b : exists out, merge_split w sz max a b = Some out.
+Proof.
+  unfold merge_split. destruct (max =? 0); [eauto|]. apply split_loop_total. unfold fuel_of. lia.
+Qed.
+
+(* ---------------------------------------------------------------------------------------- *)
+(* metrics                                                                                   *)
+(* ---------------------------------------------------------------------------------------- *)
+(* well-formed metrics payloads: non-negative measured header sizes, and every point has a positive delta size
+   (items sizer: always; bytes sizer: its encoded size is non-negative) *)
+Definition wf_item (sz : sizer) (i : item) : Prop := 0 <= point_size sz i /\ 1 <= delta sz (point_size sz i).
+Definition wf_metric (sz : sizer) (m : metric) : Prop :=
+  0 <= hdr sz (mhdr m) /\ 0 <= hdr sz (mdhdr m) /\ Forall (wf_item sz) (mpts m).
+Definition wf_mscope (sz : sizer) (s : mscope) : Prop := 0 <= hdr sz (mshdr s) /\ Forall (wf_metric sz) (msmetrics s).
+Definition wf_mres (sz : sizer) (r : mres) : Prop := 0 <= hdr sz (mrhdr r) /\ Forall (wf_mscope sz) (mrscopes r).
+Definition wf_mpayload (sz : sizer) (p : mpayload) : Prop := Forall (wf_mres sz) p.
+
+Definition nflat_metric (rc sc : Z) (m : metric) : list (Z * Z * Z * Z) :=
+  map (fun i => (iid i, rc, sc, mkind m)) (mpoints_of_metric m).
+Definition nflat_scope (rc : Z) (s : mscope) : list (Z * Z * Z * Z) :=
+  concat (map (nflat_metric rc (msctx s)) (msmetrics s)).
+Definition nflat_res (r : mres) : list (Z * Z * Z * Z) := concat (map (nflat_scope (mrctx r)) (mrscopes r)).
+Definition nflat (p : mpayload) : list (Z * Z * Z * Z) := concat (map nflat_res p).
+
+Lemma mflat_noident_eq p : mflat_noident p = nflat p.
+Proof.
+  unfold mflat_noident, mflat, nflat. rewrite map_concat, map_map. f_equal. apply map_ext. intros r.
+  unfold mflat_res, nflat_res. rewrite map_concat, map_map. f_equal. apply map_ext. intros s.
+  unfold nflat_scope. rewrite map_concat, map_map. f_equal. apply map_ext. intros m.
+  unfold mflat_metric, nflat_metric. rewrite map_map. reflexivity.
+Qed.
+
+Lemma sumZf_nonneg {A} (f : A -> Z) l : (forall x, In x l -> 0 <= f x) -> 0 <= sumZf f l.
+Proof. exact (sumZf_nonneg_l f l). Qed.
+
+Lemma sov_pos x : 1 <= sov x.
+Proof. exact (sov_pos0 x). Qed.
+
+(* number of points inside *)
+Definition N_m (m : metric) : Z := Z.of_nat (length (mpoints_of_metric m)).
+Definition N_ms (s : mscope) : Z := Z.of_nat (length (concat (map mpoints_of_metric (msmetrics s)))).
+Definition N_mr (r : mres) : Z := Z.of_nat (length (mpoints_of_res r)).
+
+Lemma wf_pts_size sz l : Forall (wf_item sz) l ->
+  0 <= sumZf (fun i => delta sz (point_size sz i)) l /\ Z.of_nat (length l) <= sumZf (fun i => delta sz (point_size sz i)) l.
+Proof. induction 1 as [|i l [A B] Hl IH]; [cbn; lia|]. cbn [sumZf length]. lia. Qed.
+
+Lemma wf_metric_size sz m : wf_metric sz m -> 0 <= metric_size sz m /\ N_m m <= metric_size sz m.
+Proof.
+  intros [H1 [H2 H3]]. unfold metric_size, N_m, mpoints_of_metric. destruct (mkind m =? 0); [cbn; lia|].
+  destruct (wf_pts_size _ _ H3) as [A B].
+  pose proof (delta_ge sz (hdr sz (mdhdr m) + sumZf (fun i => delta sz (point_size sz i)) (mpts m))). lia.
+Qed.
+
+Lemma wf_mscope_size sz s : wf_mscope sz s -> 0 <= mscope_size sz s /\ N_ms s <= mscope_size sz s.
+Proof.
+  intros [Hh Hs]. unfold mscope_size, N_ms.
+  assert (H : 0 <= sumZf (fun m => delta sz (metric_size sz m)) (msmetrics s) /\
+              Z.of_nat (length (concat (map mpoints_of_metric (msmetrics s)))) <= sumZf (fun m => delta sz (metric_size sz m)) (msmetrics s)).
+  { induction Hs as [|m l Hm Hl IH]; [cbn; lia|]. cbn [map concat sumZf]. rewrite app_length, Nat2Z.inj_add.
+    destruct (wf_metric_size _ _ Hm) as [A B]. pose proof (delta_ge sz _ A). unfold N_m in B. lia. }
+  lia.
+Qed.
+
+Lemma wf_mres_size sz r : wf_mres sz r -> 0 <= mres_size sz r /\ N_mr r <= mres_size sz r.
+Proof.
+  intros [Hh Hs]. unfold mres_size, N_mr, mpoints_of_res.
+  assert (H : 0 <= sumZf (fun s => delta sz (mscope_size sz s)) (mrscopes r) /\
+              Z.of_nat (length (concat (map (fun s => concat (map mpoints_of_metric (msmetrics s))) (mrscopes r)))) <= sumZf (fun s => delta sz (mscope_size sz s)) (mrscopes r)).
+  { induction Hs as [|s l Hs0 Hl IH]; [cbn; lia|]. cbn [map concat sumZf]. rewrite app_length, Nat2Z.inj_add.
+    destruct (wf_mscope_size _ _ Hs0) as [A B]. pose proof (delta_ge sz _ A). unfold N_ms in B. lia. }
+  lia.
+Qed.
+
+Lemma metric_Q_ok sz c : wf_metric sz c -> 0 <= metric_size sz c /\ 0 <= N_m c /\ N_m c <= delta sz (metric_size sz c).
+Proof. intros H. destruct (wf_metric_size _ _ H) as [A B]. pose proof (delta_ge sz _ A). unfold N_m in *. lia. Qed.
+Lemma mscope_Q_ok sz c : wf_mscope sz c -> 0 <= mscope_size sz c /\ 0 <= N_ms c /\ N_ms c <= delta sz (mscope_size sz c).
+Proof. intros H. destruct (wf_mscope_size _ _ H) as [A B]. pose proof (delta_ge sz _ A). unfold N_ms in *. lia. Qed.
+Lemma mres_Q_ok sz c : wf_mres sz c -> 0 <= mres_size sz c /\ 0 <= N_mr c /\ N_mr c <= delta sz (mres_size sz c).
+Proof. intros H. destruct (wf_mres_size _ _ H) as [A B]. pose proof (delta_ge sz _ A). unfold N_mr in *. lia. Qed.
+Lemma point_Q_ok sz (c : item) : wf_item sz c -> 0 <= point_size sz c /\ 0 <= 1 /\ 1 <= delta sz (point_size sz c).
+Proof. intros [A B]. lia. Qed.
+
+Lemma extract_metric_ok sz m cap e rest er rc sc :
+  wf_metric sz m -> extract_metric sz m cap = (e, rest, er) ->
+  Permutation (nflat_metric rc sc e ++ nflat_metric rc sc rest) (nflat_metric rc sc m) /\ wf_metric sz rest /\
+  (metric_keep sz e = false -> nflat_metric rc sc e = []).
+Proof.
+  unfold extract_metric. intros Hwf H. destruct (mkind m =? 0) eqn:Ek.
+  - inversion H; subst. unfold nflat_metric, mpoints_of_metric; simpl. rewrite Ek. simpl. split; [reflexivity|split; [exact Hwf|reflexivity]].
+  - destruct Hwf as [Hh1 [Hh2 Hpts]].
+    destruct (walk sz (point_size sz) None (fun _ => true) (mpts m) _ 0) as [[d k] rm] eqn:E.
+    inversion H; subst; clear H.
+    destruct (walk_perm sz (point_size sz) None (fun _ => true) (fun i => [(iid i, rc, sc, mkind m)]) (wf_item sz)
+                (fun ex Hex => ltac:(discriminate Hex)) _ _ _ _ _ _ Hpts E) as [Hp Hk].
+    rewrite !concat_map_single in Hp.
+    unfold nflat_metric, mpoints_of_metric; simpl. rewrite Ek. split; [exact Hp|]. split; [repeat split; assumption|].
+    unfold metric_keep, metric_size; simpl. rewrite Ek. intros Hkeep.
+    destruct d as [|i d]; [reflexivity|exfalso].
+    assert (Hd : Forall (wf_item sz) (i :: d)).
+    { apply Forall_forall. intros x Hx. apply (proj1 (Forall_forall _ _) Hpts). exact (walk_leaf_incl _ _ _ _ _ _ _ _ _ E x Hx). }
+    rewrite Z.gtb_ltb in Hkeep. apply Z.ltb_ge in Hkeep.
+    destruct (wf_pts_size _ _ Hd) as [A B]. cbn [length] in B.
+    assert (H0 : 0 <= hdr sz 0) by (destruct sz; cbn; lia).
+    pose proof (delta_ge sz (hdr sz 0 + sumZf (fun i0 => delta sz (point_size sz i0)) (i :: d))). lia.
+Qed.
+
+Lemma extract_metric_bounds sz m cap e rest er :
+  wf_metric sz m -> extract_metric sz m cap = (e, rest, er) -> 0 <= N_m e /\ N_m e <= er /\ er <= metric_size sz m.
+Proof.
+  unfold extract_metric. intros Hwf H. destruct (wf_metric_size _ _ Hwf) as [S0 _]. destruct (mkind m =? 0) eqn:Ek.
+  - inversion H; subst. unfold N_m, mpoints_of_metric; cbn. lia.
+  - destruct Hwf as [Hh1 [Hh2 Hpts]].
+    destruct (walk sz (point_size sz) None (fun _ => true) (mpts m) _ 0) as [[d k] rm] eqn:E.
+    inversion H; subst; clear H.
+    destruct (walk_bounds sz (point_size sz) None (fun _ => true) (fun _ => 1) (wf_item sz)
+                (point_Q_ok sz) (fun ex Hex => ltac:(discriminate Hex)) _ _ _ _ _ _ Hpts E) as [L U].
+    rewrite sumZf_ones' in L. unfold N_m, mpoints_of_metric, metric_size; cbn [mkind mpts]. rewrite Ek.
+    destruct (wf_pts_size _ _ Hpts) as [A B].
+    pose proof (delta_ge sz (hdr sz (mdhdr m) + sumZf (fun i => delta sz (point_size sz i)) (mpts m))). lia.
+Qed.
+
+Lemma extract_mscope_ok sz s cap e rest er rc :
+  wf_mscope sz s -> extract_mscope sz s cap = (e, rest, er) ->
+  Permutation (nflat_scope rc e ++ nflat_scope rc rest) (nflat_scope rc s) /\ wf_mscope sz rest /\
+  (mscope_nonempty e = false -> nflat_scope rc e = []).
+Proof.
+  unfold extract_mscope. intros [Hh Hwf] H.
+  destruct (walk sz (metric_size sz) (Some (extract_metric sz)) (metric_keep sz) (msmetrics s) _ 0) as [[d k] rm] eqn:E.
+  inversion H; subst; clear H.
+  assert (Hpart : forall ex, Some (extract_metric sz) = Some ex -> forall c cap0 e0 rest0 er0,
+            wf_metric sz c -> ex c cap0 = (e0, rest0, er0) ->
+            Permutation (nflat_metric rc (msctx s) e0 ++ nflat_metric rc (msctx s) rest0) (nflat_metric rc (msctx s) c) /\
+            wf_metric sz rest0 /\ (metric_keep sz e0 = false -> nflat_metric rc (msctx s) e0 = [])).
+  { intros ex Hex; inversion Hex; subst. intros c cap0 e0 rest0 er0 Hc Hx. exact (extract_metric_ok sz c cap0 e0 rest0 er0 rc (msctx s) Hc Hx). }
+  destruct (walk_perm sz (metric_size sz) (Some (extract_metric sz)) (metric_keep sz) (nflat_metric rc (msctx s)) (wf_metric sz)
+              Hpart _ _ _ _ _ _ Hwf E) as [Hp Hk].
+  unfold nflat_scope; simpl. split; [exact Hp|]. split; [split; assumption|].
+  unfold mscope_nonempty; simpl. destruct d; simpl; [reflexivity|discriminate].
+Qed.
+
+Lemma N_m_sum l : sumZf N_m l = Z.of_nat (length (concat (map mpoints_of_metric l))).
+Proof. induction l as [|s l IH]; [reflexivity|]. cbn [sumZf map concat]. rewrite app_length, Nat2Z.inj_add, IH. reflexivity. Qed.
+Lemma N_ms_sum l : sumZf N_ms l = Z.of_nat (length (concat (map (fun s => concat (map mpoints_of_metric (msmetrics s))) l))).
+Proof. induction l as [|s l IH]; [reflexivity|]. cbn [sumZf map concat]. rewrite app_length, Nat2Z.inj_add, IH. reflexivity. Qed.
+Lemma N_mr_sum p : sumZf N_mr p = Z.of_nat (length (mpoints_of p)).
+Proof. unfold mpoints_of. induction p as [|r p IH]; [reflexivity|]. cbn [sumZf map concat]. rewrite app_length, Nat2Z.inj_add, IH. reflexivity. Qed.
+
+Lemma extract_mscope_bounds sz s cap e rest er :
+  wf_mscope sz s -> extract_mscope sz s cap = (e, rest, er) -> 0 <= N_ms e /\ N_ms e <= er /\ er <= mscope_size sz s.
+Proof.
+  unfold extract_mscope. intros [Hh Hwf] H.
+  destruct (walk sz (metric_size sz) (Some (extract_metric sz)) (metric_keep sz) (msmetrics s) _ 0) as [[d k] rm] eqn:E.
+  inversion H; subst; clear H.
+  assert (Hpart : forall ex, Some (extract_metric sz) = Some ex -> forall c cap0 e0 rest0 er0,
+            wf_metric sz c -> ex c cap0 = (e0, rest0, er0) -> 0 <= N_m e0 /\ N_m e0 <= er0 /\ er0 <= metric_size sz c).
+  { intros ex Hex; inversion Hex; subst. intros c cap0 e0 rest0 er0 Hc Hx. exact (extract_metric_bounds sz c cap0 e0 rest0 er0 Hc Hx). }
+  destruct (walk_bounds sz (metric_size sz) (Some (extract_metric sz)) (metric_keep sz) N_m (wf_metric sz)
+              (metric_Q_ok sz) Hpart _ _ _ _ _ _ Hwf E) as [L U].
+  unfold N_ms, mscope_size; cbn [msmetrics]. rewrite N_m_sum in L. lia.
+Qed.
+
+Lemma extract_mres_ok sz r cap e rest er :
+  wf_mres sz r -> extract_mres sz r cap = (e, rest, er) ->
+  Permutation (nflat_res e ++ nflat_res rest) (nflat_res r) /\ wf_mres sz rest /\
+  (mres_nonempty e = false -> nflat_res e = []).
+Proof.
+  unfold extract_mres. intros [Hh Hwf] H.
+  destruct (walk sz (mscope_size sz) (Some (extract_mscope sz)) mscope_nonempty (mrscopes r) _ 0) as [[d k] rm] eqn:E.
+  inversion H; subst; clear H.
+  assert (Hpart : forall ex, Some (extract_mscope sz) = Some ex -> forall c cap0 e0 rest0 er0,
+            wf_mscope sz c -> ex c cap0 = (e0, rest0, er0) ->
+            Permutation (nflat_scope (mrctx r) e0 ++ nflat_scope (mrctx r) rest0) (nflat_scope (mrctx r) c) /\
+            wf_mscope sz rest0 /\ (mscope_nonempty e0 = false -> nflat_scope (mrctx r) e0 = [])).
+  { intros ex Hex; inversion Hex; subst. intros c cap0 e0 rest0 er0 Hc Hx. exact (extract_mscope_ok sz c cap0 e0 rest0 er0 (mrctx r) Hc Hx). }
+  destruct (walk_perm sz (mscope_size sz) (Some (extract_mscope sz)) mscope_nonempty (nflat_scope (mrctx r)) (wf_mscope sz)
+              Hpart _ _ _ _ _ _ Hwf E) as [Hp Hk].
+  unfold nflat_res; simpl. split; [exact Hp|]. split; [split; assumption|].
+  unfold mres_nonempty; simpl. destruct d; simpl; [reflexivity|discriminate].
+Qed.
+
+Lemma extract_mres_bounds sz r cap e rest er :
+  wf_mres sz r -> extract_mres sz r cap = (e, rest, er) -> 0 <= N_mr e /\ N_mr e <= er /\ er <= mres_size sz r.
+Proof.
+  unfold extract_mres. intros [Hh Hwf] H.
+  destruct (walk sz (mscope_size sz) (Some (extract_mscope sz)) mscope_nonempty (mrscopes r) _ 0) as [[d k] rm] eqn:E.
+  inversion H; subst; clear H.
+  assert (Hpart : forall ex, Some (extract_mscope sz) = Some ex -> forall c cap0 e0 rest0 er0,
+            wf_mscope sz c -> ex c cap0 = (e0, rest0, er0) -> 0 <= N_ms e0 /\ N_ms e0 <= er0 /\ er0 <= mscope_size sz c).
+  { intros ex Hex; inversion Hex; subst. intros c cap0 e0 rest0 er0 Hc Hx. exact (extract_mscope_bounds sz c cap0 e0 rest0 er0 Hc Hx). }
+  destruct (walk_bounds sz (mscope_size sz) (Some (extract_mscope sz)) mscope_nonempty N_ms (wf_mscope sz)
+              (mscope_Q_ok sz) Hpart _ _ _ _ _ _ Hwf E) as [L U].
+  unfold N_mr, mpoints_of_res, mres_size; cbn [mrscopes]. rewrite N_ms_sum in L. lia.
+Qed.
+
+Lemma extract_mpayload_perm sz p cap d k rm :
+  wf_mpayload sz p -> extract_mpayload sz p cap = (d, k, rm) ->
+  Permutation (nflat d ++ nflat k) (nflat p) /\ wf_mpayload sz k.
+Proof.
+  unfold extract_mpayload. intros Hwf E.
+  assert (Hpart : forall ex, Some (extract_mres sz) = Some ex -> forall c cap0 e0 rest0 er0,
+            wf_mres sz c -> ex c cap0 = (e0, rest0, er0) ->
+            Permutation (nflat_res e0 ++ nflat_res rest0) (nflat_res c) /\ wf_mres sz rest0 /\
+            (mres_nonempty e0 = false -> nflat_res e0 = [])).
+  { intros ex Hex; inversion Hex; subst. intros c cap0 e0 rest0 er0 Hc Hx. exact (extract_mres_ok sz c cap0 e0 rest0 er0 Hc Hx). }
+  exact (walk_perm sz (mres_size sz) (Some (extract_mres sz)) mres_nonempty nflat_res (wf_mres sz) Hpart _ _ _ _ _ _ Hwf E).
+Qed.
+
+Lemma extract_mpayload_removed sz p cap d k rm :
+  wf_mpayload sz p -> extract_mpayload sz p cap = (d, k, rm) -> Z.of_nat (length (mpoints_of d)) <= rm.
+Proof.
+  unfold extract_mpayload. intros Hwf E.
+  assert (Hpart : forall ex, Some (extract_mres sz) = Some ex -> forall c cap0 e0 rest0 er0,
+            wf_mres sz c -> ex c cap0 = (e0, rest0, er0) -> 0 <= N_mr e0 /\ N_mr e0 <= er0 /\ er0 <= mres_size sz c).
+  { intros ex Hex; inversion Hex; subst. intros c cap0 e0 rest0 er0 Hc Hx. exact (extract_mres_bounds sz c cap0 e0 rest0 er0 Hc Hx). }
+  destruct (walk_bounds sz (mres_size sz) (Some (extract_mres sz)) mres_nonempty N_mr (wf_mres sz)
+              (mres_Q_ok sz) Hpart _ _ _ _ _ _ Hwf E) as [L _].
+  rewrite N_mr_sum in L. lia.
+Qed.
+
+Definition nflat_reqs (l : list mreq) : list (Z * Z * Z * Z) := concat (map (fun r => nflat (mrp r)) l).
+
+Lemma nflat_reqs_app l1 l2 : nflat_reqs (l1 ++ l2) = nflat_reqs l1 ++ nflat_reqs l2.
+Proof. unfold nflat_reqs. now rewrite map_app, concat_app. Qed.
+
+Lemma nflat_app p q : nflat (p ++ q) = nflat p ++ nflat q.
+Proof. unfold nflat. now rewrite map_app, concat_app. Qed.
+
+Lemma nflat_length p : length (nflat p) = length (mpoints_of p).
+Proof.
+  unfold nflat, mpoints_of. induction p as [|r p IH]; [reflexivity|]. cbn [map concat]. rewrite !app_length, IH. f_equal.
+  unfold nflat_res, mpoints_of_res. induction (mrscopes r) as [|s l IHs]; [reflexivity|]. cbn [map concat]. rewrite !app_length, IHs. f_equal.
+  unfold nflat_scope. induction (msmetrics s) as [|m ms IHm]; [reflexivity|]. cbn [map concat]. rewrite !app_length, IHm. f_equal.
+  unfold nflat_metric. apply map_length.
+Qed.
+
+Lemma msplit_loop_perm : forall fuel sz max p cached acc out,
+  wf_mpayload sz p -> msplit_loop fuel sz max p cached acc = Some out ->
+  Permutation (nflat_reqs out) (nflat_reqs acc ++ nflat p).
+Proof.
+  induction fuel as [|f IH]; intros sz max p cached acc out Hwf H; simpl in H.
+  - destruct (cached >? max); [discriminate|]. inversion H; subst.
+    rewrite nflat_reqs_app. unfold nflat_reqs at 2; simpl. now rewrite app_nil_r.
+  - destruct (cached >? max).
+    + destruct (extract_mpayload sz p max) as [[d k] rm] eqn:E.
+      destruct (extract_mpayload_perm _ _ _ _ _ _ Hwf E) as [Hp Hk].
+      pose proof (extract_mpayload_removed _ _ _ _ _ _ Hwf E) as Hrm.
+      destruct (rm <=? 0) eqn:Eb.
+      * (* break: nothing was removed, so the discarded payload holds no data point *)
+        apply Z.leb_le in Eb.
+        assert (Hd : nflat d = []).
+        { pose proof (nflat_length d) as Hl. destruct (nflat d); [reflexivity|]. cbn [length] in Hl. lia. }
+        inversion H; subst. rewrite nflat_reqs_app. unfold nflat_reqs at 2; simpl. rewrite app_nil_r.
+        apply Permutation_app_head. rewrite <- Hp, Hd. reflexivity.
+      * apply IH in H; [|exact Hk]. rewrite H, nflat_reqs_app. unfold nflat_reqs at 2; simpl. rewrite app_nil_r, <- app_assoc.
+        apply Permutation_app_head. exact Hp.
+    + inversion H; subst. rewrite nflat_reqs_app. unfold nflat_reqs at 2; simpl. now rewrite app_nil_r.
+Qed.
+
+(* termination of the metrics split: no hypothesis at all (the memo falls by at least 1 per continuing iteration) *)
+Lemma msplit_loop_total : forall fuel sz max p cached acc,
+  (Z.to_nat (cached - max) < fuel)%nat -> exists out, msplit_loop fuel sz max p cached acc = Some out.
+Proof.
+  induction fuel as [|f IH]; intros sz max p cached acc Hf; [lia|]. cbn [msplit_loop].
+  destruct (cached >? max) eqn:Eg; [|eauto]. rewrite Z.gtb_ltb in Eg. apply Z.ltb_lt in Eg.
+  destruct (extract_mpayload sz p max) as [[d k] rm].
+  destruct (rm <=? 0) eqn:Eb; [eauto|]. apply Z.leb_gt in Eb.
+  apply IH. lia.
+Qed.
+
+Definition nflat_opt (b : option mreq) : list (Z * Z * Z * Z) := match b with Some r => nflat (mrp r) | None => [] end.
+Definition wf_mopt (sz : sizer) (b : option mreq) : Prop := match b with Some r => wf_mpayload sz (mrp r) | None => True end.
+
+Lemma mmerge_split_conserves_partial_l : forall sz max a b out,
+  wf_mpayload sz (mrp a) -> wf_mopt sz b ->
+  mmerge_split sz max a b = Some out ->
+  Permutation (nflat_reqs out) (nflat (mrp a) ++ nflat_opt b).
+Proof.
+  intros sz max a b out Ha Hb H. unfold mmerge_split in H.
+  assert (Hm : nflat (mrp (mmerged sz a b)) = nflat (mrp a) ++ nflat_opt b).
+  { destruct b; simpl; [apply nflat_app|now rewrite app_nil_r]. }
+  assert (Hw : wf_mpayload sz (mrp (mmerged sz a b))).
+  { destruct b; simpl; [|exact Ha]. unfold wf_mpayload. apply Forall_app. split; assumption. }
+  destruct (max =? 0).
+  - inversion H; subst. unfold nflat_reqs; simpl. now rewrite app_nil_r, Hm.
+  - apply msplit_loop_perm in H; [|exact Hw]. simpl in H. now rewrite <- Hm.
+Qed.
+
+Lemma mmerge_split_total sz max a b : exists out, mmerge_split sz max a b = Some out.
+Proof.
+  unfold mmerge_split. destruct (max =? 0); [eauto|]. apply msplit_loop_total. unfold fuel_of. lia.
+Qed.
+
+(* the items sizer needs no hypothesis: every metrics payload is well-formed for it *)
+Lemma wf_mpayload_items p : wf_mpayload Items p.
+Proof.
+  apply Forall_forall. intros r _. split; [cbn; lia|]. apply Forall_forall. intros s _. split; [cbn; lia|].
+  apply Forall_forall. intros m _. split; [cbn; lia|]. split; [cbn; lia|].
+  apply Forall_forall. intros i _. unfold wf_item. cbn. lia.
+Qed.
+
+(* F4: the full statement (with the metric identity) is false of the code.  Witness: one gauge metric
+   "7" with two points, items sizer, max_size 1: the first point leaves in a fragment whose identity is the
+   default one. *)
+Definition f4_req : mreq :=
+  {| mrcached := -1;
+     mrp := [ {| mrctx := 1; mrhdr := 10; mrscopes :=
+               [ {| msctx := 2; mshdr := 10; msmetrics :=
+                   [ {| mid := 7; mkind := 1; mhdr := 12; mdhdr := 0;
+                        mpts := [ {| iid := 100; iraw := 5; icnt := 1 |}; {| iid := 101; iraw := 5; icnt := 1 |} ] |} ] |} ] |} ] |}.
+
+Definition mflat_reqs (l : list mreq) : list (Z * Z * Z * Z * Z) := concat (map (fun r => mflat (mrp r)) l).
+
+Lemma f4_witness :
+  exists out, mmerge_split Items 1 f4_req None = Some out /\
+              ~ Permutation (mflat_reqs out) (mflat (mrp f4_req)) /\
+              In (100, 1, 2, 0, 1) (mflat_reqs out).
+Proof.
+  eexists. split; [vm_compute; reflexivity|]. split.
+  - intros HP. apply Permutation_sym in HP.
+    assert (Hin : In (100, 1, 2, 7, 1) (mflat (mrp f4_req))) by (vm_compute; auto).
+    pose proof (Permutation_in _ HP Hin) as Hout. vm_compute in Hout.
+    repeat (destruct Hout as [Hout|Hout]; [discriminate Hout|]). exact Hout.
+  - vm_compute. auto.
 Qed.
